@@ -164,6 +164,7 @@ def run(ch, config, res):
         srv.digest_final_in_ok = ch.srv.flag("digest_final_in_ok", 1, 2)
         srv.no_with_sasl_code = ch.srv.flag("no_with_sasl_code", 1, 2)
     creds_problem = [None]
+    current_verdict = [verdict]
 
     def auth_hook(conn, creds, ok):
         # compare what the server decoded with what the caller passed
@@ -204,7 +205,7 @@ def run(ch, config, res):
                 creds_problem[0] = "DIGEST-MD5 response carried " + ", ".join(problems)
         if creds_problem[0]:
             return False
-        return verdict == "accept"
+        return current_verdict[0] == "accept"
 
     srv.auth_hook = auth_hook
     if verdict == "forced-no":
@@ -268,7 +269,7 @@ def run(ch, config, res):
                 label, o.value, "accepted" if accepted else "refused"), {})
         if o.kind == "exc" and accepted:
             return Failure(PROP, "C16.result", "%s raised %s(%r) although the server accepted" % (label, o.exc_type, o.exc_msg), {})
-        if verdict == "accept" and s.get("accepted") is None and seen:
+        if current_verdict[0] == "accept" and s.get("accepted") is None and seen:
             return Failure(PROP, "C16.result", "%s: the server was willing to accept but the client abandoned the exchange after %d step(s): %r" % (
                 label, s.get("steps", 0), o), {})
         if bool(getattr(client, "authenticated", accepted)) != accepted:
@@ -286,6 +287,10 @@ def run(ch, config, res):
             with ch.scope("second"):
                 again = wl.flag("again", 1, 2)
                 a2 = wl.int("announced2", len(al))
+                v2 = wl.int("verdict2", 2)
+            if again and verdict != "forced-no":
+                # the first connection is simply lost (no logout); the server's verdict on the second one is its own
+                current_verdict[0] = ["accept", "reject"][v2]
             if again:
                 if use_tls:
                     cfg.sasl_post = al[a2] if al[a2] is not None else False
